@@ -5,6 +5,7 @@
  *   UserProvidedPublicationTimeVerification   "user publication time equals the publication time inside the signature": OK / NA (never FAIL)
  *   UserProvidedPublicationTimeDoesNotSuit    the opposite: OK when there is no signature publication or the times differ, else NA
  *   UserProvidedPublicationHashVerification   "user publication hash equals the publication hash inside the signature": OK / FAIL PUB-04
+ *   ...ExtendingPermittedVerification (both policies)  OK iff context.extendingAllowed != 0, else NA
  *   UserProvidedPublicationCreationTimeVerification  "signature is created before user provided publication": OK iff the signing time
  *                                             (calendar aggregation time, else first aggregation chain's time) < user publication time, else NA
  * A rule that misses the component it reads reports an error status with NA (never OK / FAIL).
@@ -41,6 +42,31 @@ void harness(void) {
 	res = KSI_VerificationRule_RequireNoUserProvidedPublication(&sb_vc, &r);
 	CHECK(C04_USERPUB == 0 ? IS(res, r, KSI_VER_RES_OK, KSI_VER_ERR_NONE) : (res == KSI_OK && r.resultCode == KSI_VER_RES_NA),
 			"C04.Huser RequireNoUserProvidedPublication is OK exactly when no publication object was supplied");
+
+	/* ---- presence probes used as guards by the anchor tables: OK / NA without error code ---- */
+#define PROBE(rule, present, msg) sb_result_init(&r); res = KSI_VerificationRule_##rule(&sb_vc, &r); \
+	CHECK((present) ? IS(res, r, KSI_VER_RES_OK, KSI_VER_ERR_NONE) : IS(res, r, KSI_VER_RES_NA, KSI_VER_ERR_NONE), "C04.Huser " #rule " " msg)
+	PROBE(SignaturePublicationRecordExistence, SB_HAS_PUB, "is OK exactly with a publication record");
+	PROBE(SignaturePublicationRecordMissing, !SB_HAS_PUB, "is OK exactly without a publication record");
+	PROBE(SignatureDoesNotContainPublication, !SB_HAS_PUB, "is OK exactly without a publication record");
+	PROBE(CalendarHashChainExistence, SB_HAS_CAL, "is OK exactly with a calendar chain");
+	PROBE(CalendarHashChainDoesNotExist, !SB_HAS_CAL, "is OK exactly without a calendar chain");
+
+	/* ---- permission to extend ("0 means no, and any non-zero is considered to be true", policy.h) ---- */
+	{
+		int allowed = ND(int, extending_allowed);
+		sb_vc.extendingAllowed = allowed;
+		sb_result_init(&r);
+		res = KSI_VerificationRule_UserProvidedPublicationExtendingPermittedVerification(&sb_vc, &r);
+		CHECK(allowed != 0 ? IS(res, r, KSI_VER_RES_OK, KSI_VER_ERR_NONE) : (res == KSI_OK && r.resultCode == KSI_VER_RES_NA),
+				"C04.Huser extending permitted rule (user publication policy) is OK exactly when extending is allowed, NA otherwise");
+		sb_result_init(&r);
+		res = KSI_VerificationRule_PublicationsFileExtendingPermittedVerification(&sb_vc, &r);
+		CHECK(allowed != 0 ? IS(res, r, KSI_VER_RES_OK, KSI_VER_ERR_NONE) : (res == KSI_OK && r.resultCode == KSI_VER_RES_NA),
+				"C04.Huser extending permitted rule (publications file policy) is OK exactly when extending is allowed, NA otherwise");
+		if (allowed == 0) WITNESS_POINT("extending not allowed");
+		if (allowed < 0) WITNESS_POINT("extending allowed by a negative flag value");
+	}
 
 #if C04_USERPUB != 0
 	/* ---- time ---- */
